@@ -193,6 +193,22 @@ def directed(rng):
         out.append(scenario("split-pods:" + "-".join(sel_a.values()), default_catalog(), [dc.pool("pa")], nodes, pods,
                             [{"a": "Method", "method": "multi"}, {"a": "Method", "method": "single"}, {"a": "Round"}],
                             {"kind": "directed", "case": "split-pods"}))
+    # J: the pool admits spot and on-demand but no spot offering is available: the price filter falls through to the
+    # on-demand prices, the request is then pinned to spot (observation Obs_C06_UnlaunchableReplacement, not judged)
+    for mode in ("unavailable", "absent"):
+        cat = default_catalog()
+        for t in cat:
+            if mode == "absent":
+                t["offerings"] = [o for o in t["offerings"] if o["ct"] != "spot"]
+            else:
+                for o in t["offerings"]:
+                    if o["ct"] == "spot":
+                        o["available"] = False
+        nodes = [dc.node("c1", "pa", "t3")]
+        pods = [dc.pod("p1", "c1", cpu=1500)]
+        out.append(scenario("no-spot:" + mode, cat, [dc.pool("pa")], nodes, pods,
+                            [{"a": "Method", "method": "single"}, {"a": "Round"}],
+                            {"kind": "directed", "case": "no-spot-" + mode}))
     # D: the pod on the removed node disappears while the command waits (witness mentions a pod that is gone)
     nodes = [dc.node("c1", "pa", "t3")]
     pods = [dc.pod("p1", "c1", cpu=1500), dc.pod("p1b", "c1", cpu=300)]
